@@ -166,6 +166,9 @@ def main(tier, seed, replay=None):
     for i in range(nproj):
         proj = shape_project(projgen.gen_project(seed * 1000 + i), SHAPES[i % len(SHAPES)])
         all_runs[proj["name"]] = (proj, run_project(proj, variants, seeds))
+    for k in (1, 2):
+        proj = shape_project(projgen.gen_special(k), "plain")
+        all_runs[proj["name"]] = (proj, run_project(proj, variants, seeds))
     npairs, bad, tres = judge_projects(all_runs)
     # a rejection / difference is reported only if an immediate re-run of that project reproduces it
     suspects = sorted(set([b["group"] for b in bad] + [rj["label"].split("/")[0] for rj in tres.rejected]))
